@@ -261,6 +261,11 @@ func (g *Gen) u16() uint64 {
 }
 
 func (g *Gen) u15() uint64 {
+	if g.r.Intn(4) == 0 {
+		if v, ok := g.dictInt(15); ok {
+			return v
+		}
+	}
 	switch g.r.Intn(5) {
 	case 0:
 		return uint64(g.pick(0, 1, 14, 127, 128, 142, 255, 256, 270, 300, 16384, 32767))
@@ -329,6 +334,10 @@ func (g *Gen) transform(ttype int) *Sx {
 	case 1: // TV
 		return L(A("T"), N(uint64(ttype)), N(id), A("1"), N(1), N(g.u15()), N(g.u16()), X(nil))
 	default: // TLV, non-empty value
+		if g.chance(0.3) { // an attribute type the source knows, carried as TLV with a very short value
+			at, _ := g.dictInt(8)
+			return L(A("T"), N(uint64(ttype)), N(id), A("1"), N(0), N(at&0x7f), N(0), X(g.bytes(1+g.r.Intn(3))))
+		}
 		return L(A("T"), N(uint64(ttype)), N(id), A("1"), N(0), N(g.u15()), N(0), X(g.bytesMin(1, 300)))
 	}
 }
@@ -564,6 +573,22 @@ func (g *Gen) payloadList() *Sx {
 	n := g.pick(0, 1, 1, 2, 2, 3, 4, 5, 8)
 	if g.chance(0.02) {
 		n = 20 + g.r.Intn(20)
+	}
+	if g.chance(0.01) { // a datagram longer than 65535 octets although every payload fits: 2..4 large payloads
+		for i := g.pick(2, 2, 3, 4); i > 0; i-- {
+			kind := []string{"CERT", "V", "NONCE", "AUTH", "IDi", "N"}[g.r.Intn(6)]
+			l := g.pick(20000, 30000, 32768, 40000, 65000, 16384+g.r.Intn(40000))
+			var p *Sx
+			switch kind {
+			case "V", "NONCE":
+				p = L(A(kind), X(g.keyBytesRandom(l)))
+			case "N":
+				p = L(A("N"), N(g.u8()), N(g.u16()), X(nil), X(g.keyBytesRandom(l)))
+			default:
+				p = L(A(kind), N(g.u8()), X(g.keyBytesRandom(l)))
+			}
+			ps.List = append(ps.List, p)
+		}
 	}
 	for i := 0; i < n; i++ {
 		ps.List = append(ps.List, g.payload(payloadKinds[g.r.Intn(len(payloadKinds))], g.chance(0.02)))
